@@ -12,19 +12,19 @@
 #include "spec.h"
 
 /* ghost call log of the provider operations */
-extern int           g_op_hmac_calls;
+extern unsigned      g_op_hmac_calls;
 extern const jwk_item_t *g_op_hmac_key;
 extern jwt_alg_t     g_op_hmac_alg;
 extern const char   *g_op_hmac_data;
 extern unsigned int  g_op_hmac_len;
 
-extern int           g_op_sign_calls;
+extern unsigned      g_op_sign_calls;
 extern const jwk_item_t *g_op_sign_key;
 extern jwt_alg_t     g_op_sign_alg;
 extern const char   *g_op_sign_data;
 extern unsigned int  g_op_sign_len;
 
-extern int           g_op_verify_calls;
+extern unsigned      g_op_verify_calls;
 extern const jwk_item_t *g_op_verify_key;
 extern jwt_alg_t     g_op_verify_alg;
 extern const char   *g_op_verify_data;
@@ -36,73 +36,111 @@ extern int           g_op_verify_ret;
 #define OPS_JWT_VALID(jwt) (__CPROVER_r_ok(jwt, sizeof(*jwt)) && (jwt)->key != NULL && \
 			    __CPROVER_r_ok((jwt)->key, sizeof(*(jwt)->key)))
 
+/* Each provider entry has ONE contract, parameterised only by which property's
+ * gate clause is asserted at the call (so that a failing gate is attributed to
+ * the right property).  GATE_* are extra requires clauses:
+ *   C09 : key-strength floor        C02 : key family matches the algorithm
+ *   FULL: both (what the real provider routines are proved under)        */
+#define GATE_NONE
+#define GATE_HMAC_C09 __CPROVER_requires(SPEC_HMAC_OK(jwt->alg, jwt->key->bits))
+#define GATE_HMAC_C02 __CPROVER_requires(jwt->key->kty == JWK_KEY_TYPE_OCT)
+#define GATE_HMAC_FULL GATE_HMAC_C09 GATE_HMAC_C02
+#define GATE_PEM_C09 __CPROVER_requires(SPEC_ASYM_OK(jwt->alg, jwt->key->bits))
+#define GATE_PEM_C02 __CPROVER_requires(jwt->key->kty == SPEC_KTY_FOR(jwt->alg))
+#define GATE_PEM_FULL GATE_PEM_C09 GATE_PEM_C02
+
 /* ---- sign_sha_hmac --------------------------------------------------- */
-int contract_ops_sign_sha_hmac(jwt_t *jwt, char **out, unsigned int *len,
-			       const char *str, unsigned int str_len)
-/* the gate of properties C09 / C02: reached only with an HS algorithm, a key
- * of the oct family that is at least as long as the hash output */
-__CPROVER_requires(OPS_JWT_VALID(jwt))
-__CPROVER_requires(SPEC_IS_HS(jwt->alg))
-__CPROVER_requires(SPEC_HMAC_OK(jwt->alg, jwt->key->bits))
-__CPROVER_requires(jwt->key->kty == JWK_KEY_TYPE_OCT)
-__CPROVER_requires(__CPROVER_w_ok(out, sizeof(*out)) && __CPROVER_w_ok(len, sizeof(*len)))
-__CPROVER_assigns(*out, *len, g_op_hmac_calls, g_op_hmac_key, g_op_hmac_alg, g_op_hmac_data, g_op_hmac_len)
-__CPROVER_ensures(__CPROVER_return_value == 0 || __CPROVER_return_value == 1)
-__CPROVER_ensures(g_op_hmac_calls == __CPROVER_old(g_op_hmac_calls) + 1)
-__CPROVER_ensures(g_op_hmac_key == jwt->key && g_op_hmac_alg == jwt->alg &&
-		  g_op_hmac_data == str && g_op_hmac_len == str_len)
-__CPROVER_ensures(__CPROVER_return_value == 0 ==>
-		  (*len == (unsigned int)SPEC_HASH_BITS(jwt->alg) / 8 &&
-		   __CPROVER_is_fresh(*out, 64)))
+#define DECL_OPS_SIGN_SHA_HMAC(NAME, GATE) \
+int NAME(jwt_t *jwt, char **out, unsigned int *len, const char *str, unsigned int str_len) \
+__CPROVER_requires(OPS_JWT_VALID(jwt)) \
+__CPROVER_requires(SPEC_IS_HS(jwt->alg)) \
+GATE \
+__CPROVER_requires(__CPROVER_w_ok(out, sizeof(*out)) && __CPROVER_w_ok(len, sizeof(*len))) \
+__CPROVER_assigns(*out, *len, g_op_hmac_calls, g_op_hmac_key, g_op_hmac_alg, g_op_hmac_data, g_op_hmac_len) \
+__CPROVER_ensures(__CPROVER_return_value == 0 || __CPROVER_return_value == 1) \
+__CPROVER_ensures(g_op_hmac_calls == __CPROVER_old(g_op_hmac_calls) + 1) \
+__CPROVER_ensures(g_op_hmac_key == jwt->key && g_op_hmac_alg == jwt->alg && \
+		  g_op_hmac_data == str && g_op_hmac_len == str_len) \
+__CPROVER_ensures(__CPROVER_return_value == 0 ==> \
+		  (*len == (unsigned int)SPEC_HASH_BITS(jwt->alg) / 8 && \
+		   __CPROVER_is_fresh(*out, 64))) \
 __CPROVER_ensures(__CPROVER_return_value != 0 ==> *out == NULL)
-;
+
+DECL_OPS_SIGN_SHA_HMAC(contract_ops_sign_sha_hmac, GATE_HMAC_FULL);
+DECL_OPS_SIGN_SHA_HMAC(contract_C09_ops_sign_sha_hmac, GATE_HMAC_C09);
+DECL_OPS_SIGN_SHA_HMAC(contract_C02_ops_sign_sha_hmac, GATE_HMAC_C02);
+DECL_OPS_SIGN_SHA_HMAC(contract_nogate_ops_sign_sha_hmac, GATE_NONE);
 
 /* ---- sign_sha_pem ----------------------------------------------------- */
-int contract_ops_sign_sha_pem(jwt_t *jwt, char **out, unsigned int *len,
-			      const char *str, unsigned int str_len)
-__CPROVER_requires(OPS_JWT_VALID(jwt))
-__CPROVER_requires(SPEC_IS_ASYM(jwt->alg))
-__CPROVER_requires(SPEC_ASYM_OK(jwt->alg, jwt->key->bits))
-__CPROVER_requires(jwt->key->kty == SPEC_KTY_FOR(jwt->alg))
-__CPROVER_requires(__CPROVER_w_ok(out, sizeof(*out)) && __CPROVER_w_ok(len, sizeof(*len)))
-__CPROVER_requires(SPEC_ERRMSG_TERMINATED(jwt))
-__CPROVER_assigns(*out, *len, jwt->error, __CPROVER_object_whole(jwt->error_msg),
-		  g_op_sign_calls, g_op_sign_key, g_op_sign_alg, g_op_sign_data, g_op_sign_len)
-__CPROVER_ensures(g_op_sign_calls == __CPROVER_old(g_op_sign_calls) + 1)
-__CPROVER_ensures(g_op_sign_key == jwt->key && g_op_sign_alg == jwt->alg &&
-		  g_op_sign_data == str && g_op_sign_len == str_len)
-/* failure is signalled through the return value AND the per-call flag */
-__CPROVER_ensures((__CPROVER_return_value != 0) == (jwt->error != 0) ||
-		  (__CPROVER_old(jwt->error) != 0))
-__CPROVER_ensures(__CPROVER_return_value == 0 ==>
-		  (*len >= 1 && *len <= 1024 && __CPROVER_is_fresh(*out, *len)))
-__CPROVER_ensures(SPEC_ERRMSG_TERMINATED(jwt))
-__CPROVER_ensures(jwt->error != 0 ==> jwt->error_msg[0] != 0 || __CPROVER_old(jwt->error) != 0)
-;
+#define DECL_OPS_SIGN_SHA_PEM(NAME, GATE) \
+int NAME(jwt_t *jwt, char **out, unsigned int *len, const char *str, unsigned int str_len) \
+__CPROVER_requires(OPS_JWT_VALID(jwt)) \
+__CPROVER_requires(SPEC_IS_ASYM(jwt->alg)) \
+GATE \
+__CPROVER_requires(__CPROVER_w_ok(out, sizeof(*out)) && __CPROVER_w_ok(len, sizeof(*len))) \
+__CPROVER_requires(SPEC_ERRMSG_TERMINATED(jwt)) \
+__CPROVER_assigns(*out, *len, jwt->error, SPEC_ERRMSG_FRAME(jwt), \
+		  g_op_sign_calls, g_op_sign_key, g_op_sign_alg, g_op_sign_data, g_op_sign_len) \
+__CPROVER_ensures(g_op_sign_calls == __CPROVER_old(g_op_sign_calls) + 1) \
+__CPROVER_ensures(g_op_sign_key == jwt->key && g_op_sign_alg == jwt->alg && \
+		  g_op_sign_data == str && g_op_sign_len == str_len) \
+/* failure is signalled through the return value AND the per-call flag */ \
+__CPROVER_ensures(__CPROVER_return_value != 0 ==> jwt->error != 0) \
+__CPROVER_ensures(__CPROVER_old(jwt->error) != 0 ==> jwt->error != 0) \
+__CPROVER_ensures(__CPROVER_return_value == 0 ==> \
+		  (*len >= 1 && *len <= 1024 && __CPROVER_is_fresh(*out, 1024))) \
+__CPROVER_ensures(SPEC_ERRMSG_TERMINATED(jwt)) \
+__CPROVER_ensures(jwt->error != 0 ==> (jwt->error_msg[0] != 0 || __CPROVER_old(jwt->error) != 0))
+
+DECL_OPS_SIGN_SHA_PEM(contract_ops_sign_sha_pem, GATE_PEM_FULL);
+DECL_OPS_SIGN_SHA_PEM(contract_C09_ops_sign_sha_pem, GATE_PEM_C09);
+DECL_OPS_SIGN_SHA_PEM(contract_C02_ops_sign_sha_pem, GATE_PEM_C02);
+DECL_OPS_SIGN_SHA_PEM(contract_nogate_ops_sign_sha_pem, GATE_NONE);
 
 /* ---- verify_sha_pem --------------------------------------------------- */
-int contract_ops_verify_sha_pem(jwt_t *jwt, const char *head,
-				unsigned int head_len, unsigned char *sig,
-				int sig_len)
-__CPROVER_requires(OPS_JWT_VALID(jwt))
-__CPROVER_requires(SPEC_IS_ASYM(jwt->alg))
-__CPROVER_requires(SPEC_ASYM_OK(jwt->alg, jwt->key->bits))
-__CPROVER_requires(jwt->key->kty == SPEC_KTY_FOR(jwt->alg))
-__CPROVER_requires(sig != NULL && sig_len > 0 && __CPROVER_r_ok(sig, sig_len))
-__CPROVER_requires(SPEC_ERRMSG_TERMINATED(jwt))
-__CPROVER_assigns(jwt->error, __CPROVER_object_whole(jwt->error_msg),
-		  g_op_verify_calls, g_op_verify_key, g_op_verify_alg, g_op_verify_data,
-		  g_op_verify_len, g_op_verify_sig, g_op_verify_siglen, g_op_verify_ret)
-__CPROVER_ensures(g_op_verify_calls == __CPROVER_old(g_op_verify_calls) + 1)
-__CPROVER_ensures(g_op_verify_key == jwt->key && g_op_verify_alg == jwt->alg &&
-		  g_op_verify_data == head && g_op_verify_len == head_len &&
-		  g_op_verify_sig == sig && g_op_verify_siglen == sig_len)
-__CPROVER_ensures(g_op_verify_ret == __CPROVER_return_value)
-/* THE clause property C12 names: a rejected signature leaves the per-call
- * error flag set, whatever the return value is */
-__CPROVER_ensures(__CPROVER_return_value != 0 ==> jwt->error != 0)
-__CPROVER_ensures(__CPROVER_old(jwt->error) != 0 ==> jwt->error != 0)
-__CPROVER_ensures(SPEC_ERRMSG_TERMINATED(jwt))
+#define DECL_OPS_VERIFY_SHA_PEM(NAME, GATE) \
+int NAME(jwt_t *jwt, const char *head, unsigned int head_len, unsigned char *sig, int sig_len) \
+__CPROVER_requires(OPS_JWT_VALID(jwt)) \
+__CPROVER_requires(SPEC_IS_ASYM(jwt->alg)) \
+GATE \
+__CPROVER_requires(sig != NULL && sig_len > 0 && __CPROVER_r_ok(sig, sig_len)) \
+__CPROVER_requires(SPEC_ERRMSG_TERMINATED(jwt)) \
+__CPROVER_assigns(jwt->error, SPEC_ERRMSG_FRAME(jwt), \
+		  g_op_verify_calls, g_op_verify_key, g_op_verify_alg, g_op_verify_data, \
+		  g_op_verify_len, g_op_verify_sig, g_op_verify_siglen, g_op_verify_ret) \
+__CPROVER_ensures(g_op_verify_calls == __CPROVER_old(g_op_verify_calls) + 1) \
+__CPROVER_ensures(g_op_verify_key == jwt->key && g_op_verify_alg == jwt->alg && \
+		  g_op_verify_data == head && g_op_verify_len == head_len && \
+		  g_op_verify_sig == sig && g_op_verify_siglen == sig_len) \
+__CPROVER_ensures(g_op_verify_ret == __CPROVER_return_value) \
+/* THE clause property C12 names: a rejected signature leaves the per-call \
+ * error flag set, whatever the return value is */ \
+__CPROVER_ensures(__CPROVER_return_value != 0 ==> jwt->error != 0) \
+__CPROVER_ensures(__CPROVER_old(jwt->error) != 0 ==> jwt->error != 0) \
+__CPROVER_ensures(SPEC_ERRMSG_TERMINATED(jwt)) \
 __CPROVER_ensures(jwt->error != 0 ==> (jwt->error_msg[0] != 0 || __CPROVER_old(jwt->error) != 0))
-;
+
+DECL_OPS_VERIFY_SHA_PEM(contract_ops_verify_sha_pem, GATE_PEM_FULL);
+DECL_OPS_VERIFY_SHA_PEM(contract_C09_ops_verify_sha_pem, GATE_PEM_C09);
+DECL_OPS_VERIFY_SHA_PEM(contract_C02_ops_verify_sha_pem, GATE_PEM_C02);
+DECL_OPS_VERIFY_SHA_PEM(contract_nogate_ops_verify_sha_pem, GATE_NONE);
+
+/* jwt_ops points to a provider table whose entries obey the contracts */
+#define OPS_TABLE_OBEYS(P) (__CPROVER_is_fresh(jwt_ops, sizeof(*jwt_ops)) && \
+	__CPROVER_obeys_contract(jwt_ops->sign_sha_hmac, contract_##P##_ops_sign_sha_hmac) && \
+	__CPROVER_obeys_contract(jwt_ops->sign_sha_pem, contract_##P##_ops_sign_sha_pem) && \
+	__CPROVER_obeys_contract(jwt_ops->verify_sha_pem, contract_##P##_ops_verify_sha_pem))
+/* harnesses must take the address of the contract symbols (CBMC needs them as
+ * candidates for the function pointers) */
+#define OPS_TAKE_ADDRESSES(P) do { \
+	void *volatile a1 = (void *)contract_##P##_ops_sign_sha_hmac; \
+	void *volatile a2 = (void *)contract_##P##_ops_sign_sha_pem; \
+	void *volatile a3 = (void *)contract_##P##_ops_verify_sha_pem; (void)a1; (void)a2; (void)a3; } while (0)
+
+#define OPS_GHOST_ASSIGNS_SIGN g_op_hmac_calls, g_op_hmac_key, g_op_hmac_alg, g_op_hmac_data, g_op_hmac_len, \
+	g_op_sign_calls, g_op_sign_key, g_op_sign_alg, g_op_sign_data, g_op_sign_len
+#define OPS_GHOST_ASSIGNS g_op_hmac_calls, g_op_hmac_key, g_op_hmac_alg, g_op_hmac_data, g_op_hmac_len, \
+	g_op_sign_calls, g_op_sign_key, g_op_sign_alg, g_op_sign_data, g_op_sign_len, \
+	g_op_verify_calls, g_op_verify_key, g_op_verify_alg, g_op_verify_data, g_op_verify_len, \
+	g_op_verify_sig, g_op_verify_siglen, g_op_verify_ret
 #endif
